@@ -310,7 +310,7 @@ def extract(repo):
             return [ord(k) for k in ks]
         grab('lsmtkVerifierEditInfoKeys', keys)
         def pops():
-            body = re.search(r'pub fn verify\(&mut self\)(.*?)for entry in entries', v, re.S)
+            body = re.search(r'pub fn verify\(&mut self\)(.*?)for (?:entry|\(fragment, entry\)) in entries', v, re.S)
             if not body:
                 raise Missing('LsmVerifier::verify')
             return len(re.findall(r'entries\.pop\(\)', body.group(1)))
@@ -405,6 +405,16 @@ def extract(repo):
                        ('lsmtkDefaultL0StallBytes', 'l0_write_stall_threshold_bytes')]:
         grab(key, lambda field=field: lsmtk_default(field))
     grab('lsmtkNumLevels', lambda: eval_int(const_int(read(repo, 'lsmtk/src/tree/mod.rs'), 'NUM_LEVELS')))
+    # lsmtk selector (C01): the floating-point expressions of next_compaction, whitespace-normalised
+    # (the model computes them in integer arithmetic from tables; an edit to an expression breaks the tie)
+    def lsmtk_selector_expr(pattern, what):
+        m = re.search(pattern, read(repo, 'lsmtk/src/tree/mod.rs'), re.S)
+        if not m:
+            raise Missing(what)
+        return re.sub(r'\s+', ' ', m.group(1)).strip()
+    grab('lsmtkLevelCurveExpr', lambda: lsmtk_selector_expr(r'fn level_curve\(level: usize\) -> u64 \{(.*?)\n {12}\}', 'level_curve'))
+    grab('lsmtkLevelFactorExpr', lambda: lsmtk_selector_expr(r'let level_factor =\s*(.*?);', 'level_factor'))
+    grab('lsmtkScaledScoreExpr', lambda: lsmtk_selector_expr(r'candidate = Some\(compaction\);\s*best_score = (\(score as f64[^;]*?);', 'scaled best_score'))
     grab('skipfreeDefaultMaxHeight', lambda: eval_int(const_int(read(repo, 'skipfree/src/lib.rs'), 'DEFAULT_MAX_HEIGHT')))
     grab('skipfreeBranching', lambda: eval_int(const_int(read(repo, 'skipfree/src/lib.rs'), 'BRANCHING')))
     c09_consts(repo, grab)
